@@ -401,6 +401,10 @@ class CompositeFrontend(ConstrainedFrontend):
         if self.satisfiable(extra_constraints=extra_constraints):
             return ()
 
+        if self._unsat:
+            # the concrete False that was added is kept in the flag, in no child: it is the core
+            return [false()]
+
         cores = []
 
         for solver in self._solver_list:
